@@ -293,6 +293,80 @@ theorem corrupted_frame_rejected (p : Params) (h : IbWF p) (m : Msg) (pre post :
 
 
 
+/-! ## Interbus: exactly which frames are accepted -/
+
+/-- the extra (decidable) conditions of the exact acceptance theorem: the decoder's second length test is exactly 6
+(fewer bytes would index past the content) and the CRC table of the polynomial has no zero low byte -/
+def ibStrictWf (p : Params) : Bool := p.minBody == 6 && crcTableOk p.crcPoly
+
+theorem gen_interbus_strict : ibStrictWf Gen.Layouts.interbus = true := by decide +kernel
+
+/-- **what exactly the decoder accepts**: a frame is decoded to `m` iff it has the delimiters and its content — *as the
+code un-escapes it* — is the body of `m` followed by the correct CRC of that body, with a known message type.
+So no content with a wrong checksum is ever accepted; the frames accepted beyond those a conforming device sends are
+exactly the other spellings `inner ≠ escape (fullBody m)` of a correctly check-summed telegram (a reserved byte left
+un-escaped, an escape byte followed by no escape code taken literally). -/
+theorem decode_accepts_iff (p : Params) (h : IbWF p) (hs : ibStrictWf p = true) (w : Bytes) (m : Msg) :
+    decode p w = .ok m ↔
+      (w.head? = some p.encSot ∧ w.getLast? = some p.encEot ∧
+       unescape p ((w.drop 1).dropLast) = fullBody p m ∧ Decodable p m) := by
+  simp only [ibStrictWf, Bool.and_eq_true, beq_iff_eq] at hs
+  obtain ⟨hmb, htab⟩ := hs
+  constructor
+  · intro hd
+    obtain ⟨h1, h2, h3, h4, h5, h6⟩ := decode_ok p w m hd
+    rw [h.sot] at h1; rw [h.eot] at h2
+    generalize hu : unescape p ((w.drop 1).dropLast) = u at *
+    have hlen : 6 ≤ u.length := by omega
+    -- split the content into body and the two CRC bytes
+    obtain ⟨c1, c2, hc12⟩ : ∃ c1 c2, u.drop (u.length - 2) = [c1, c2] := by
+      have hl2 : (u.drop (u.length - 2)).length = 2 := by simp; omega
+      match hd2 : u.drop (u.length - 2), hl2 with
+      | [a, b], _ => exact ⟨a, b, rfl⟩
+    have hsplit : u = u.take (u.length - 2) ++ [c1, c2] := by
+      rw [← hc12]; exact (List.take_append_drop _ _).symm
+    generalize hb : u.take (u.length - 2) = b at *
+    have hbl : 4 ≤ b.length := by rw [← hb, List.length_take]; omega
+    rw [hsplit] at h4
+    have hcrc := crcOf_residue_unique p.crcPoly h.odd h.poly htab b _ _ h4
+    have hb4 := list_split4 b hbl
+    have hbody : body m = b := by
+      rw [h6]; unfold body
+      simp only [UInt8.ofNat_toNat]
+      exact hb4.symm
+    refine ⟨h1, h2, ?_, ?_⟩
+    · unfold fullBody
+      rw [hbody, ← hcrc.1, ← hcrc.2]; exact hsplit
+    · rw [h6]
+      exact ⟨UInt8.toNat_lt _, UInt8.toNat_lt _, ⟨by rw [h6] at h5; exact h5, UInt8.toNat_lt _⟩, UInt8.toNat_lt _⟩
+  · rintro ⟨h1, h2, h3, hdec⟩
+    have hfl : (fullBody p m).length = m.data.length + 6 := by simp [fullBody, body]
+    have hle := length_unescape_le p ((w.drop 1).dropLast)
+    rw [h3, hfl] at hle
+    simp only [List.length_dropLast, List.length_drop] at hle
+    unfold decode
+    rw [if_neg (by have := h.minFrame; omega), if_neg (by simp [h.sot, h.eot, h1, h2])]
+    simp only [h3]
+    rw [if_neg (by omega)]
+    have hcrc : crcOf p.crcPoly (fullBody p m) = 0 := crc_appended_is_zero p h (body m)
+    rw [if_neg (by simp [hcrc])]
+    have htake : (fullBody p m).take ((fullBody p m).length - 2) = body m := by
+      unfold fullBody; rw [List.length_append]; simp
+    simp only [htake]
+    have e0 : ((body m).getD 0 0).toNat = m.dest := by have := hdec.dst; simp [body]; omega
+    have e1 : ((body m).getD 1 0).toNat = m.src := by have := hdec.src; simp [body]; omega
+    have e2 : ((body m).getD 2 0).toNat = m.mtype := by have := hdec.typ.2; simp [body]; omega
+    have e3 : ((body m).getD 3 0).toNat = m.reg := by have := hdec.reg; simp [body]; omega
+    have e4 : (body m).drop 4 = m.data := by simp [body]
+    rw [e0, e1, e2, e3, e4, if_neg (by simp [hdec.typ.1])]
+
+/-- the class that slips through is not empty: a raw CR and a literal escape byte inside a frame whose checksum is right
+for the literal reading — accepted, although a conforming device would have sent the escaped spelling -/
+example : (decode Gen.Layouts.interbus [0x0d, 0x05, 0xa2, 0x05, 0x31, 0x0d, 0x5e, 0x41, 0x5d, 0xc1, 0x0a]).toOption
+      = some ⟨5, 162, 5, 0x31, [0x0d, 0x5e, 0x41]⟩
+    ∧ frame Gen.Layouts.interbus ⟨5, 162, 5, 0x31, [0x0d, 0x5e, 0x41]⟩
+      = [0x0d, 0x05, 0xa2, 0x05, 0x31, 0x5e, 0x4d, 0x5e, 0x9e, 0x41, 0x5d, 0xc1, 0x0a] := by decide +kernel
+
 /-! ## Interbus: request / response with retries -/
 
 theorem readMessage_error_kind (p : Params) (t t' : Tr) (e : Exc) (h : readMessage p t = (.error e, t')) :
@@ -864,6 +938,99 @@ theorem ask_ok_id (pr : Proto) (h : AptWF pr) (l : Layout) (buf rest : Bytes) (v
           · omega
 
 
+/-- **what a returned data packet is made of, for every receive stream**: the expected id, a length field that
+covers the structure, and *exactly the `sizeof` bytes that follow the header* — never bytes beyond the announced
+length, never a value from a message with another id; the stream is consumed up to the announced length -/
+theorem ask_ok_value (pr : Proto) (h : AptWF pr) (l : Layout) (buf rest : Bytes) (vs : List Int)
+    (ho : l.headerOnly = false) (hok : ask pr l buf = (.ok vs, rest)) :
+    leVal (buf.take 2) = l.msgId ∧ l.size ≤ leVal ((buf.drop 2).take 2) ∧ 6 + leVal ((buf.drop 2).take 2) ≤ buf.length ∧
+    vs = unpack l.cells ((buf.drop 6).take l.size) ∧ rest = buf.drop (6 + leVal ((buf.drop 2).take 2)) := by
+  by_cases hl : buf.length < 6
+  · unfold ask at hok; rw [h.hs, readN_short 6 buf hl] at hok; simp at hok
+  · have r1 := readN_ok 6 buf hl
+    unfold ask at hok
+    rw [h.hs, r1] at hok
+    simp only [ho, Bool.false_eq_true, if_false] at hok
+    have fb : fromBuffer pr.hdrData (buf.take 6) = .ok (unpack pr.hdrData.cells ((buf.take 6).take 6)) := by
+      unfold fromBuffer; rw [h.hdSize, if_neg (by simp; omega)]
+    rw [fb] at hok
+    simp only at hok
+    rw [h.hd, h.iId, h.iLen] at hok
+    simp only [unpack, List.getD_cons_zero, List.getD_cons_succ] at hok
+    have e : (decCell ⟨2, false⟩ (List.take 2 (List.take 6 (List.take 6 buf)))) = (leVal (buf.take 2) : Int) := by
+      simp [decCell, List.take_take]
+    have e2 : (decCell ⟨2, false⟩ (List.take 2 (List.drop 2 (List.take 6 (List.take 6 buf))))).toNat = leVal ((buf.drop 2).take 2) := by
+      have : List.take 2 (List.drop 2 (List.take 6 (List.take 6 buf))) = (buf.drop 2).take 2 := by
+        rw [List.take_take, List.drop_take, List.take_take]; simp
+      rw [this]; simp [decCell]
+    rw [e, e2] at hok
+    generalize leVal ((buf.drop 2).take 2) = len at *
+    by_cases hl2 : (buf.drop 6).length < len
+    · rw [readN_short len _ hl2] at hok; simp at hok
+    · rw [readN_ok len _ hl2] at hok
+      simp only at hok
+      split at hok
+      · simp at hok
+      · rename_i hid
+        simp only [Decidable.not_not] at hid
+        unfold fromBuffer at hok
+        split at hok
+        · simp at hok
+        · rename_i hsz
+          simp only [List.length_take, List.length_drop] at hsz hl2
+          simp only [Prod.mk.injEq, Except.ok.injEq] at hok
+          refine ⟨by omega, by omega, by omega, ?_, ?_⟩
+          · rw [← hok.1, List.take_take]; congr 2; omega
+          · rw [← hok.2, List.drop_drop]
+
+/-- **header-only replies: what `ask` checks and what it does not.**  It returns whenever six bytes are there and the
+class fits in them; the value is those six bytes read through the asked class — the message id in them is *not*
+compared with `MESSAGE_ID` (the statement of C15 speaks of data messages only; drivers that care compare a field) -/
+theorem ask_header_only_iff (pr : Proto) (h : AptWF pr) (l : Layout) (buf rest : Bytes) (vs : List Int)
+    (ho : l.headerOnly = true) :
+    ask pr l buf = (.ok vs, rest) ↔
+      (6 ≤ buf.length ∧ l.size ≤ 6 ∧ vs = unpack l.cells ((buf.take 6).take l.size) ∧ rest = buf.drop 6) := by
+  unfold ask
+  rw [h.hs]
+  by_cases hl : buf.length < 6
+  · rw [readN_short 6 buf hl]; simp; omega
+  · rw [readN_ok 6 buf hl]
+    simp only [ho, if_true]
+    unfold fromBuffer
+    by_cases hs : (buf.take 6).length < l.size
+    · rw [if_pos hs]; simp at hs ⊢; omega
+    · rw [if_neg hs]
+      simp only [List.length_take] at hs
+      simp only [Prod.mk.injEq, Except.ok.injEq]
+      constructor
+      · rintro ⟨h1, h2⟩; exact ⟨by omega, by omega, h1.symm, h2.symm⟩
+      · rintro ⟨_, _, h1, h2⟩; exact ⟨h1.symm, h2.symm⟩
+
+/-- **`ask(data_type, timeout)`**: every `transport.read` it makes gets the caller's timeout, or the protocol's default
+when none is given; the first read asks for the header size -/
+theorem ask_reads_spec (pr : Proto) (l : Layout) (dflt t : Option Nat) (buf : Bytes) :
+    (∀ x ∈ askReads pr l dflt t buf, x.2 = askTimeout dflt t) ∧
+    (askReads pr l dflt t buf).head? = some (pr.headerSize, askTimeout dflt t) ∧
+    (t = none → askTimeout dflt t = dflt) ∧ (∀ v, t = some v → askTimeout dflt t = some v) := by
+  refine ⟨?_, ?_, fun h => by subst h; rfl, fun v h => by subst h; rfl⟩
+  · intro x hx
+    unfold askReads at hx
+    simp only at hx
+    split at hx
+    · simp at hx; rw [hx]
+    · split at hx
+      · simp at hx; rw [hx]
+      · split at hx
+        · simp at hx; rw [hx]
+        · simp at hx; rcases hx with hx | hx <;> rw [hx]
+  · unfold askReads
+    simp only
+    split
+    · rfl
+    · split
+      · rfl
+      · split <;> rfl
+
 /-! ### obligations on the generated layouts -/
 
 /-- the protocol object for the generated constants -/
@@ -922,6 +1089,344 @@ example : Gen.Layouts.aptPackets.length > 0 ∧ Gen.Layouts.aptPackets.any (fun 
 example : (ask (genProto 0x50 1) ⟨"MOT_MOVE_ABSOLUTE", 0x0453, false, 6,
         [⟨"chan_ident", 0, ⟨2, false⟩, 1, false⟩, ⟨"absolute_distance", 2, ⟨4, true⟩, 1, false⟩]⟩
       [0x53, 0x04, 6, 0, 0x81, 0x50, 1, 0, 0xfb, 0xff, 0xff, 0xff, 0xaa]).1.toOption = some [1, -5] := by decide +kernel
+
+/-- witness: a MOT_MOVE_COMPLETED header (id 0x0464) is returned by `ask(MOT_MOVE_HOMED)` (id 0x0444) as if it were the latter -/
+example : (ask (genProto 0x50 1) ⟨"MOT_MOVE_HOMED", 0x0444, true, 6,
+        [⟨"message_id", 0, ⟨2, false⟩, 1, false⟩, ⟨"chan_ident", 2, ⟨1, false⟩, 1, false⟩, ⟨"param2", 3, ⟨1, false⟩, 1, false⟩,
+         ⟨"dest", 4, ⟨1, false⟩, 1, false⟩, ⟨"source", 5, ⟨1, false⟩, 1, false⟩]⟩
+      [0x64, 0x04, 1, 0, 0x01, 0x50]).1.toOption = some [0x0464, 1, 0, 1, 0x50] := by decide +kernel
+
+/-! # APT, second implementation: `Thorlabs_K10CR1._read_message` / `_wait_message` / `_send_message` / `create` -/
+
+/-- the constants and the header layout of `k10cr1.py` the theorems need (a `decide` obligation on the generated term) -/
+structure K10WF (k : K10) : Prop where
+  hl : k.hdrLen = 6
+  hd : k.hdr.cells = [⟨2, false⟩, ⟨2, false⟩, ⟨1, false⟩, ⟨1, false⟩]
+  hdSize : k.hdr.size = 6
+  iId : k.hdr.cellIndex "message_id" = 0
+  iLen : k.hdr.cellIndex "data_length" = 1
+  iDest : k.hdr.cellIndex "dest" = 2
+  flag : k.longFlag = 0x80
+
+/-- the three header fields `_read_message` looks at, as functions of the stream -/
+def hdrId (buf : Bytes) : Nat := leVal (buf.take 2)
+def hdrLenField (buf : Bytes) : Nat := leVal ((buf.drop 2).take 2)
+def hdrDest (buf : Bytes) : Nat := leVal ((buf.drop 4).take 1)
+
+theorem k10_header_parse (k : K10) (h : K10WF k) (buf : Bytes) (hl : ¬ buf.length < 6) :
+    fromBuffer k.hdr (buf.take 6) = .ok [(hdrId buf : Int), (hdrLenField buf : Int), (hdrDest buf : Int),
+                                          (leVal ((buf.drop 5).take 1) : Int)] := by
+  unfold fromBuffer
+  rw [h.hdSize, if_neg (by simp; omega), h.hd]
+  simp only [unpack, hdrId, hdrLenField, hdrDest]
+  have e1 : List.take 2 (List.take 6 (List.take 6 buf)) = buf.take 2 := by simp [List.take_take]
+  have e2 : List.take 2 (List.drop 2 (List.take 6 (List.take 6 buf))) = (buf.drop 2).take 2 := by
+    rw [List.take_take, List.drop_take, List.take_take]; simp
+  have e3 : List.take 1 (List.drop 2 (List.drop 2 (List.take 6 (List.take 6 buf)))) = (buf.drop 4).take 1 := by
+    rw [List.take_take, List.drop_drop, List.drop_take, List.take_take]; simp
+  have e4 : List.take 1 (List.drop 1 (List.drop 2 (List.drop 2 (List.take 6 (List.take 6 buf))))) = (buf.drop 5).take 1 := by
+    rw [List.take_take, List.drop_drop, List.drop_drop, List.drop_take, List.take_take]; simp
+  rw [e1, e2, e3, e4]
+  simp [decCell]
+
+theorem fromBuffer_ok (l : Layout) (bs : Bytes) (h : ¬ bs.length < l.size) :
+    fromBuffer l bs = .ok (unpack l.cells (bs.take l.size)) := by
+  unfold fromBuffer; rw [if_neg h]
+
+/-- **what `_read_message` returns, for every receive stream**: a class of the table whose id is the id in the stream;
+the stream announced exactly that class's size (long flag: length field + 6; no flag: 6 bytes); the value is exactly
+those bytes; everything else raises (unknown id, wrong length, partial message) -/
+theorem k10_read_sound (k : K10) (h : K10WF k) (buf rest : Bytes) (mt : Layout) (vs : List Int)
+    (hok : k10Read k buf = (.ok (mt, vs), rest)) :
+    mt ∈ k.table ∧ mt.msgId = hdrId buf ∧
+    (hdrDest buf &&& 0x80 ≠ 0 → 6 + hdrLenField buf = mt.size) ∧ (hdrDest buf &&& 0x80 = 0 → mt.size = 6) ∧
+    mt.size ≤ buf.length ∧ vs = unpack mt.cells (buf.take mt.size) ∧ rest = buf.drop mt.size := by
+  unfold k10Read at hok
+  rw [h.hl] at hok
+  by_cases hl : buf.length < 6
+  · rw [readN_short 6 buf hl] at hok; simp at hok
+  · rw [readN_ok 6 buf hl] at hok
+    simp only at hok
+    rw [k10_header_parse k h buf hl] at hok
+    simp only [h.iId, h.iLen, h.iDest, h.flag, List.getD_cons_zero, List.getD_cons_succ, Int.toNat_natCast] at hok
+    generalize hrId : hdrId buf = id at *
+    generalize hrLen : hdrLenField buf = len at *
+    generalize hrDest : hdrDest buf = dest at *
+    by_cases hflag : dest &&& 0x80 ≠ 0
+    · rw [if_pos hflag] at hok
+      by_cases hl2 : (buf.drop 6).length < len
+      · rw [readN_short len _ hl2] at hok; simp at hok
+      · rw [readN_ok len _ hl2] at hok
+        simp only at hok
+        split at hok
+        · simp at hok
+        · rename_i mt' hfind
+          split at hok
+          · simp at hok
+          · rename_i hsz
+            simp only [Decidable.not_not] at hsz
+            rw [fromBuffer_ok _ _ (by omega)] at hok
+            simp only [List.length_append, List.length_take, List.length_drop] at hsz hl2
+            simp only [Prod.mk.injEq, Except.ok.injEq] at hok
+            obtain ⟨⟨hm, hv⟩, hr⟩ := hok
+            subst hm
+            have hmem := List.mem_of_find?_eq_some hfind
+            have hp := List.find?_some hfind
+            simp only [beq_iff_eq] at hp
+            have hdat : buf.take 6 ++ (buf.drop 6).take len = buf.take (6 + len) := by
+              rw [List.take_add]
+            refine ⟨hmem, by omega, fun _ => by omega, fun hz => absurd hz hflag, by omega, ?_, ?_⟩
+            · rw [← hv, hdat, List.take_take]; congr 2; omega
+            · rw [← hr, List.drop_drop]; congr 1; omega
+    · rw [if_neg hflag] at hok
+      simp only at hok
+      split at hok
+      · simp at hok
+      · rename_i mt' hfind
+        split at hok
+        · simp at hok
+        · rename_i hsz
+          simp only [Decidable.not_not] at hsz
+          rw [fromBuffer_ok _ _ (by omega)] at hok
+          simp only [List.length_take] at hsz
+          simp only [Prod.mk.injEq, Except.ok.injEq] at hok
+          obtain ⟨⟨hm, hv⟩, hr⟩ := hok
+          subst hm
+          have hmem := List.mem_of_find?_eq_some hfind
+          have hp := List.find?_some hfind
+          simp only [beq_iff_eq] at hp
+          simp only [Decidable.not_not] at hflag
+          refine ⟨hmem, by omega, fun hz => absurd hflag hz, fun _ => by omega, by omega, ?_, ?_⟩
+          · rw [← hv, List.take_take]; congr 2; omega
+          · rw [← hr]; congr 1; omega
+
+
+theorem pack_hdr_append (id len d s : Nat) (h1 : id < 65536) (h2 : len < 65536) (h3 : d < 256) (h4 : s < 256)
+    (dcells : List Cell) (dvs : List Int) :
+    pack ([⟨2, false⟩, ⟨2, false⟩, ⟨1, false⟩, ⟨1, false⟩] ++ dcells) ([(id : Int), (len : Int), (d : Int), (s : Int)] ++ dvs)
+      = dataHeader id len d s ++ pack dcells dvs := by
+  rw [← pack_hdrData id len d s h1 h2 h3 h4]
+  simp [pack, List.append_assoc]
+
+/-- **long message round trip**: the device sends header (class id, length = `sizeof − 6`, long flag set) and the packed
+fields; `_read_message` returns that class with exactly the device's values and leaves the rest of the stream -/
+theorem k10_read_long (k : K10) (h : K10WF k) (mt : Layout) (dcells : List Cell) (d s : Nat) (dvs : List Int) (rest : Bytes)
+    (hfind : k.table.find? (fun l => (l.msgId : Int) == (mt.msgId : Int)) = some mt)
+    (hcells : mt.cells = [⟨2, false⟩, ⟨2, false⟩, ⟨1, false⟩, ⟨1, false⟩] ++ dcells)
+    (hsz : cellsSize mt.cells = mt.size) (hid : mt.msgId < 65536) (hsize : mt.size < 65536)
+    (h3 : d < 256) (hflag : d &&& 0x80 ≠ 0) (h4 : s < 256) (hr : AllInRange dcells dvs) :
+    k10Read k (dataHeader mt.msgId (mt.size - 6) d s ++ pack dcells dvs ++ rest)
+      = (.ok (mt, [(mt.msgId : Int), ((mt.size - 6 : Nat) : Int), (d : Int), (s : Int)] ++ dvs), rest) := by
+  have hds : cellsSize dcells = mt.size - 6 := by
+    rw [hcells] at hsz; simp [cellsSize] at hsz ⊢; omega
+  have hs6 : 6 ≤ mt.size := by rw [hcells] at hsz; simp [cellsSize] at hsz; omega
+  have hpl : (pack dcells dvs).length = mt.size - 6 := by rw [pack_length, hds]
+  have hh : (dataHeader mt.msgId (mt.size - 6) d s).length = 6 := by simp [dataHeader]
+  unfold k10Read
+  rw [h.hl, List.append_assoc, readN_append 6 _ _ hh]
+  simp only
+  have hfb : fromBuffer k.hdr (dataHeader mt.msgId (mt.size - 6) d s)
+      = .ok [(mt.msgId : Int), ((mt.size - 6 : Nat) : Int), (d : Int), (s : Int)] := by
+    rw [fromBuffer_ok _ _ (by rw [h.hdSize, hh]; omega), h.hdSize, h.hd]
+    have : (dataHeader mt.msgId (mt.size - 6) d s).take 6 = dataHeader mt.msgId (mt.size - 6) d s := by simp [dataHeader]
+    rw [this, unpack_dataHeader _ _ _ _ hid (by omega) h3 h4]
+  rw [hfb]
+  simp only [h.iId, h.iLen, h.iDest, h.flag, List.getD_cons_zero, List.getD_cons_succ, Int.toNat_natCast]
+  rw [if_pos hflag, readN_append _ _ _ hpl]
+  simp only
+  rw [hfind]
+  simp only
+  rw [if_neg (by simp [hh, hpl]; omega)]
+  rw [fromBuffer_ok _ _ (by simp [hh, hpl]; omega)]
+  have htake : (dataHeader mt.msgId (mt.size - 6) d s ++ pack dcells dvs).take mt.size
+      = dataHeader mt.msgId (mt.size - 6) d s ++ pack dcells dvs := by
+    rw [List.take_of_length_le (by simp [hh, hpl]; omega)]
+  rw [htake, hcells, ← pack_hdr_append _ _ _ _ hid (by omega) h3 h4]
+  have hall : AllInRange ([⟨2, false⟩, ⟨2, false⟩, ⟨1, false⟩, ⟨1, false⟩] ++ dcells)
+      ([(mt.msgId : Int), ((mt.size - 6 : Nat) : Int), (d : Int), (s : Int)] ++ dvs) :=
+    ⟨inRange_nat 2 _ (by simpa using hid), inRange_nat 2 _ (by simp; omega), inRange_nat 1 _ (by simpa using h3),
+     inRange_nat 1 _ (by simpa using h4), hr⟩
+  have := unpack_pack _ _ hall []
+  rw [List.append_nil] at this
+  rw [this]
+
+/-- **header-only message round trip**: six bytes id, two parameter bytes, dest without the long flag, source -/
+theorem k10_read_short (k : K10) (h : K10WF k) (mt : Layout) (p1 p2 d s : Nat) (rest : Bytes)
+    (hfind : k.table.find? (fun l => (l.msgId : Int) == (mt.msgId : Int)) = some mt)
+    (hcells : mt.cells = [⟨2, false⟩, ⟨1, false⟩, ⟨1, false⟩, ⟨1, false⟩, ⟨1, false⟩]) (hsz : mt.size = 6)
+    (hid : mt.msgId < 65536) (h1 : p1 < 256) (h2 : p2 < 256) (h3 : d < 256) (hflag : d &&& 0x80 = 0) (h4 : s < 256) :
+    k10Read k (dataHeader mt.msgId (p1 + 256 * p2) d s ++ rest)
+      = (.ok (mt, [(mt.msgId : Int), (p1 : Int), (p2 : Int), (d : Int), (s : Int)]), rest) := by
+  have hh : (dataHeader mt.msgId (p1 + 256 * p2) d s).length = 6 := by simp [dataHeader]
+  unfold k10Read
+  rw [h.hl, readN_append 6 _ _ hh]
+  simp only
+  have hfb : fromBuffer k.hdr (dataHeader mt.msgId (p1 + 256 * p2) d s)
+      = .ok [(mt.msgId : Int), ((p1 + 256 * p2 : Nat) : Int), (d : Int), (s : Int)] := by
+    rw [fromBuffer_ok _ _ (by rw [h.hdSize, hh]; omega), h.hdSize, h.hd]
+    have : (dataHeader mt.msgId (p1 + 256 * p2) d s).take 6 = dataHeader mt.msgId (p1 + 256 * p2) d s := by simp [dataHeader]
+    rw [this, unpack_dataHeader _ _ _ _ hid (by omega) h3 h4]
+  rw [hfb]
+  simp only [h.iId, h.iLen, h.iDest, h.flag, List.getD_cons_zero, List.getD_cons_succ, Int.toNat_natCast]
+  rw [if_neg (by simp [hflag])]
+  simp only
+  rw [hfind]
+  simp only
+  rw [if_neg (by simp [hh, hsz])]
+  rw [fromBuffer_ok _ _ (by simp [hh, hsz])]
+  have htake : (dataHeader mt.msgId (p1 + 256 * p2) d s).take mt.size = dataHeader mt.msgId (p1 + 256 * p2) d s := by
+    rw [List.take_of_length_le (by simp [hh, hsz])]
+  rw [htake, hcells]
+  have hp : pack [⟨2, false⟩, ⟨1, false⟩, ⟨1, false⟩, ⟨1, false⟩, ⟨1, false⟩] [(mt.msgId : Int), (p1 : Int), (p2 : Int), (d : Int), (s : Int)]
+      = dataHeader mt.msgId (p1 + 256 * p2) d s := by
+    simp only [pack, List.append_nil]
+    rw [encCell_nat ⟨2, false⟩ _ (by simpa using hid), encCell_nat ⟨1, false⟩ p1 (by simpa using h1),
+        encCell_nat ⟨1, false⟩ p2 (by simpa using h2), encCell_nat ⟨1, false⟩ d (by simpa using h3),
+        encCell_nat ⟨1, false⟩ s (by simpa using h4)]
+    simp only [leBytes2, leBytes1, dataHeader, List.cons_append, List.nil_append]
+    have e1 : (p1 + 256 * p2) % 256 = p1 % 256 := by omega
+    have e2 : (p1 + 256 * p2) / 256 % 256 = p2 % 256 := by omega
+    rw [e1, e2]
+  rw [← hp]
+  have hall : AllInRange [⟨2, false⟩, ⟨1, false⟩, ⟨1, false⟩, ⟨1, false⟩, ⟨1, false⟩]
+      [(mt.msgId : Int), (p1 : Int), (p2 : Int), (d : Int), (s : Int)] :=
+    ⟨inRange_nat 2 _ (by simpa using hid), inRange_nat 1 _ (by simpa using h1), inRange_nat 1 _ (by simpa using h2),
+     inRange_nat 1 _ (by simpa using h3), inRange_nat 1 _ (by simpa using h4), trivial⟩
+  have := unpack_pack _ _ hall []
+  rw [List.append_nil] at this
+  rw [this]
+
+/-! ### `_wait_message` -/
+
+/-- **`_wait_message` returns only a message of the awaited class** (so: with the awaited id), for every stream and clock -/
+theorem k10_wait_sound (k : K10) (want : String) (clk : Clock) (endT : Nat) :
+    ∀ fuel n buf tm mt vs b tm', k10WaitLoop k want clk endT fuel n buf tm = (.ok (mt, vs), b, tm') → mt.name = want := by
+  intro fuel
+  induction fuel with
+  | zero => intro n buf tm mt vs b tm' h; simp [k10WaitLoop] at h
+  | succ fuel ih =>
+    intro n buf tm mt vs b tm' h
+    unfold k10WaitLoop at h
+    simp only at h
+    split at h
+    · simp at h
+    · rename_i mt0 vs0 b0 hr
+      split at h
+      · rename_i hn; simp only [Prod.mk.injEq, Except.ok.injEq] at h; rw [← h.1.1]; exact hn
+      · split at h
+        · simp at h
+        · exact ih _ _ _ _ _ _ _ h
+
+/-- a valid message of another class is skipped (while the clock has not passed the deadline) … -/
+theorem k10_wait_skip (k : K10) (want : String) (clk : Clock) (endT fuel n : Nat) (buf b : Bytes) (tm : List Nat)
+    (mt : Layout) (vs : List Int) (hr : k10Read k buf = (.ok (mt, vs), b)) (hne : mt.name ≠ want)
+    (hclk : ¬ clk.at (n + 1) > endT) :
+    k10WaitLoop k want clk endT (fuel + 1) n buf tm = k10WaitLoop k want clk endT fuel (n + 2) b (tm ++ [endT - clk.at n]) := by
+  conv => lhs; unfold k10WaitLoop
+  simp only [hr, if_neg hne, if_neg hclk]
+
+/-- … and the awaited one is returned with the device's values -/
+theorem k10_wait_hit (k : K10) (want : String) (clk : Clock) (endT fuel n : Nat) (buf b : Bytes) (tm : List Nat)
+    (mt : Layout) (vs : List Int) (hr : k10Read k buf = (.ok (mt, vs), b)) (hn : mt.name = want) :
+    k10WaitLoop k want clk endT (fuel + 1) n buf tm = (.ok (mt, vs), b, tm ++ [endT - clk.at n]) := by
+  unfold k10WaitLoop
+  simp only [hr, if_pos hn]
+
+/-- **the awaited reply behind any number of other valid messages is delivered unchanged** (clock within the deadline):
+`skipped` = the messages in front, each with its wire bytes and what `_read_message` makes of it -/
+theorem k10_wait_delivers (k : K10) (want : String) (clk : Clock) (endT : Nat) (hstep : clk.step = 0) (hend : clk.t0 ≤ endT)
+    (tmt : Layout) (tvs : List Int) (tw rest : Bytes)
+    (htr : k10Read k (tw ++ rest) = (.ok (tmt, tvs), rest)) (htn : tmt.name = want) :
+    ∀ (skipped : List (Layout × List Int × Bytes)) (fuel n : Nat) (tm : List Nat),
+      (∀ x ∈ skipped, x.1.name ≠ want ∧ ∀ r, k10Read k (x.2.2 ++ r) = (.ok (x.1, x.2.1), r)) →
+      skipped.length < fuel →
+      ∃ tm', k10WaitLoop k want clk endT fuel n ((skipped.map (·.2.2)).flatten ++ (tw ++ rest)) tm = (.ok (tmt, tvs), rest, tm') := by
+  intro skipped
+  induction skipped with
+  | nil =>
+    intro fuel n tm _ hf
+    obtain ⟨f, rfl⟩ : ∃ f, fuel = f + 1 := ⟨fuel - 1, by simp at hf; omega⟩
+    exact ⟨_, by simpa using k10_wait_hit k want clk endT f n _ _ tm tmt tvs htr htn⟩
+  | cons x xs ih =>
+    intro fuel n tm hx hf
+    obtain ⟨f, rfl⟩ : ∃ f, fuel = f + 1 := ⟨fuel - 1, by simp at hf; omega⟩
+    have hx1 := hx x (by simp)
+    have hclk : ¬ clk.at (n + 1) > endT := by simp [Clock.at, hstep]; omega
+    simp only [List.map_cons, List.flatten_cons, List.append_assoc]
+    rw [k10_wait_skip k want clk endT f n _ _ tm x.1 x.2.1 (hx1.2 _) hx1.1 hclk]
+    exact ih f (n + 2) _ (fun y hy => hx y (List.mem_cons_of_mem _ hy)) (by simp at hf; omega)
+
+
+/-! ### `_send_message`, `_AptMessage.create` -/
+
+/-- `_send_message` writes the message unchanged or raises without writing; a read time-out of the pending-message
+poll is the only suppressed error -/
+theorem k10_send_spec (k : K10) (msg buf : Bytes) :
+    (∃ b, k10Send k msg buf = (none, some msg, b)) ∨ (∃ e b, e ≠ Exc.timeout ∧ k10Send k msg buf = (some e, none, b)) := by
+  unfold k10Send
+  split
+  · exact Or.inl ⟨_, rfl⟩
+  · rename_i e b hne _
+    exact Or.inr ⟨e, b, fun he => by subst he; exact hne rfl, rfl⟩
+  · exact Or.inl ⟨_, rfl⟩
+
+/-- **`create` of a long message**: id, **length = `sizeof − 6`**, **device address | 0x80**, host address, then the
+remaining fields as packed from the keyword values -/
+theorem k10_create_long (k : K10) (mt : Layout) (f1 f2 f3 f4 : Field) (dfs : List Field) (dcells : List Cell) (kw : List Int)
+    (hfields : mt.fields = f1 :: f2 :: f3 :: f4 :: dfs)
+    (hn1 : f1.name = "message_id") (hn2 : f2.name = "data_length") (hn3 : f3.name = "dest") (hn4 : f4.name = "source")
+    (hcells : mt.cells = [⟨2, false⟩, ⟨2, false⟩, ⟨1, false⟩, ⟨1, false⟩] ++ dcells)
+    (hlong : mt.size > k.hdrLen) (hid : mt.msgId < 65536) (hsize : mt.size < 65536)
+    (hdev : k.devAddr < 256) (hflag : k.longFlag < 256) (hhost : k.hostAddr < 256) :
+    k10Create k mt kw = dataHeader mt.msgId (mt.size - k.hdrLen) (k.devAddr ||| k.longFlag) k.hostAddr
+                          ++ pack dcells (k10CreateVals k mt dfs kw) := by
+  unfold k10Create
+  rw [hfields, hcells]
+  simp only [k10CreateVals, hn1, hn2, hn3, hn4, hlong, if_true, and_self, if_false,
+    show ("data_length" = "message_id") = False by decide, show ("dest" = "message_id") = False by decide,
+    show ("dest" = "data_length") = False by decide, show ("source" = "message_id") = False by decide,
+    show ("source" = "data_length") = False by decide, show ("source" = "dest") = False by decide, false_and]
+  have hor : k.devAddr ||| k.longFlag < 256 := Nat.or_lt_two_pow (n := 8) hdev hflag
+  have := pack_hdr_append mt.msgId (mt.size - k.hdrLen) (k.devAddr ||| k.longFlag) k.hostAddr hid (by omega) hor hhost dcells
+    (k10CreateVals k mt dfs kw)
+  simpa using this
+
+/-! ### obligations on the generated K10CR1 table -/
+
+theorem gen_k10_wf : K10WF Gen.Layouts.k10 := by
+  refine ⟨?_, ?_, ?_, ?_, ?_, ?_, ?_⟩ <;> decide
+
+/-- every class of `_apt_message_type_table`: contiguous fields, `sizeof` = sum of cells ≥ 6, found under its own id
+(ids unique), ids and sizes fit the header fields; header-only classes are id + two parameter bytes + dest + source; long
+classes start with the four header fields -/
+theorem gen_k10_table :
+    ∀ mt ∈ Gen.Layouts.k10.table,
+      mt.Contiguous ∧ cellsSize mt.cells = mt.size ∧ 6 ≤ mt.size ∧ mt.msgId < 65536 ∧ mt.size < 65536 ∧
+      Gen.Layouts.k10.table.find? (fun l => (l.msgId : Int) == (mt.msgId : Int)) = some mt ∧
+      (mt.size = 6 → mt.cells = [⟨2, false⟩, ⟨1, false⟩, ⟨1, false⟩, ⟨1, false⟩, ⟨1, false⟩]) ∧
+      (mt.size > 6 → mt.cells.take 4 = [⟨2, false⟩, ⟨2, false⟩, ⟨1, false⟩, ⟨1, false⟩] ∧
+                     (mt.fields.take 4).map Field.name = ["message_id", "data_length", "dest", "source"]) := by
+  decide +kernel
+
+theorem gen_k10_consts : Gen.Layouts.k10.devAddr < 128 ∧ Gen.Layouts.k10.hostAddr < 128 ∧ Gen.Layouts.k10.table.length > 0 := by decide
+
+/-- read for the current source: whatever `_read_message` returns is a table class under the id found in the stream, of
+the announced size, with exactly the stream's bytes -/
+theorem gen_k10_read_sound (buf rest : Bytes) (mt : Layout) (vs : List Int)
+    (hok : k10Read Gen.Layouts.k10 buf = (.ok (mt, vs), rest)) :
+    mt ∈ Gen.Layouts.k10.table ∧ mt.msgId = hdrId buf ∧ vs = unpack mt.cells (buf.take mt.size) ∧ rest = buf.drop mt.size :=
+  let r := k10_read_sound _ gen_k10_wf buf rest mt vs hok
+  ⟨r.1, r.2.1, r.2.2.2.2.2.1, r.2.2.2.2.2.2⟩
+
+/-- non-vacuity: a GET_STATUSBITS reply behind a MOVE_HOMED notification is what `_wait_message` returns -/
+example : (k10Wait Gen.Layouts.k10 "_AptMsgGetStatusBits" ⟨0, 1⟩ 10
+      [0x44, 0x04, 1, 0, 0x01, 0x50,  0x2a, 0x04, 6, 0, 0x81, 0x50, 1, 0, 0x78, 0x56, 0x34, 0x12,  0xaa]).1.toOption.map (·.2)
+    = some [0x042a, 6, 0x81, 0x50, 1, 0x12345678] := by decide +kernel
+
+/-- … and an unknown id, a wrong length field or a cut-off message raise -/
+example : (k10Read Gen.Layouts.k10 [0x13, 0x02, 1, 0, 0x01, 0x50]).1.toOption = none
+    ∧ (k10Read Gen.Layouts.k10 [0x2a, 0x04, 7, 0, 0x81, 0x50, 1, 0, 0x78, 0x56, 0x34, 0x12, 0]).1.toOption = none
+    ∧ (k10Read Gen.Layouts.k10 [0x2a, 0x04, 6, 0, 0x81, 0x50, 1, 0, 0x78]).1.toOption = none := by decide +kernel
 
 end Apt
 
@@ -1009,6 +1514,141 @@ theorem timestamp_decomposes (p : Params) (h : t2Wf p = true) (c r : Nat) :
   constructor
   · rw [Nat.mul_comm, Nat.mul_add_div (by decide), Nat.div_eq_of_lt this]; rfl
   · rw [Nat.mul_comm, Nat.mul_add_mod, Nat.mod_eq_of_lt this]
+
+
+/-! ## T2: numpy's uint64 arithmetic -/
+
+theorem processU64_cons (p : Params) (c r : Nat) (rs : List Nat) :
+    processU64 p c (r :: rs) =
+      if isOverflow p r then processU64 p ((c + recTag p r) % word) rs
+      else ((processU64 p c rs).1, ⟨recType p r, (c * p.period + recTag p r) % word⟩ :: (processU64 p c rs).2) := by
+  by_cases h : isOverflow p r = true
+  · simp [processU64, stepU64, h]
+  · simp [processU64, stepU64, h]
+
+theorem overflowSum_cons (p : Params) (r : Nat) (rs : List Nat) :
+    overflowSum p (r :: rs) = (if isOverflow p r then recTag p r else 0) + overflowSum p rs := by
+  simp [overflowSum]
+
+/-- **the uint64 bound as an explicit hypothesis**: while `(carried + all overflow counts of the batch) · period + tagMask`
+fits 64 bits, numpy's wrapping arithmetic computes exactly the unbounded result -/
+theorem processU64_eq_process (p : Params) (c : Nat) (rs : List Nat)
+    (hb : (c + overflowSum p rs) * p.period + p.tagMask < word) (hper : 1 ≤ p.period) :
+    processU64 p c rs = process p c rs := by
+  induction rs generalizing c with
+  | nil => rfl
+  | cons r rs ih =>
+    rw [processU64_cons, process_cons]
+    rw [overflowSum_cons] at hb
+    have htag : recTag p r ≤ p.tagMask := by unfold recTag; exact Nat.and_le_right
+    by_cases h : isOverflow p r = true
+    · simp only [h, if_true] at hb ⊢
+      have hle : c + recTag p r ≤ (c + (recTag p r + overflowSum p rs)) * p.period := by
+        calc c + recTag p r ≤ c + (recTag p r + overflowSum p rs) := by omega
+          _ ≤ (c + (recTag p r + overflowSum p rs)) * p.period := Nat.le_mul_of_pos_right _ hper
+      rw [Nat.mod_eq_of_lt (by omega)]
+      exact ih _ (by rw [Nat.add_assoc]; exact hb)
+    · simp only [h, if_false, Bool.false_eq_true, Nat.zero_add] at hb ⊢
+      have hmono : c * p.period ≤ (c + overflowSum p rs) * p.period := Nat.mul_le_mul_right _ (by omega)
+      rw [Nat.mod_eq_of_lt (by omega), ih c hb]
+
+/-- how many overflow records it takes: each adds at most `tagMask` -/
+theorem overflowSum_le (p : Params) (rs : List Nat) :
+    overflowSum p rs ≤ (rs.filter (isOverflow p)).length * p.tagMask := by
+  induction rs with
+  | nil => simp [overflowSum]
+  | cons r rs ih =>
+    rw [overflowSum_cons]
+    have htag : recTag p r ≤ p.tagMask := by unfold recTag; exact Nat.and_le_right
+    by_cases h : isOverflow p r = true
+    · simp only [h, if_true, List.filter_cons_of_pos, List.length_cons, Nat.succ_mul]; omega
+    · simp only [h, Bool.false_eq_true, if_false, Nat.zero_add]
+      rw [List.filter_cons_of_neg (by simpa using h)]; exact ih
+
+/-- **with the constants of the source**: starting from a carried counter `c`, no timestamp wraps as long as
+`c + 33554431 · (number of overflow records in the batch) < 2^39`; from `c = 0` that takes more than 16384 overflow
+records each carrying the maximal count (for a device that reports every wrap of its 25-bit clock: 2^39 wraps) -/
+theorem gen_t2_no_wrap (c : Nat) (rs : List Nat)
+    (hb : c + (rs.filter (isOverflow Gen.Layouts.t2)).length * 33554431 < 2 ^ 39) :
+    processU64 Gen.Layouts.t2 c rs = process Gen.Layouts.t2 c rs := by
+  apply processU64_eq_process
+  · have h1 := overflowSum_le Gen.Layouts.t2 rs
+    have e1 : Gen.Layouts.t2.tagMask = 33554431 := by decide
+    have e2 : Gen.Layouts.t2.period = 33554432 := by decide
+    rw [e1] at h1
+    rw [e1, e2]
+    unfold word
+    omega
+  · decide
+
+example : (16384 : Nat) * 33554431 < 2 ^ 39 ∧ ¬ ((16385 : Nat) * 33554431 < 2 ^ 39) := by decide
+
+/-- the bound is sharp: at carried counter 2^39 − 1 one more overflow wraps the next timestamp to a small number -/
+example : (processU64 Gen.Layouts.t2 (2 ^ 39 - 1) [0xFE000001, 7]).2 = [⟨0, 7⟩]
+    ∧ (process Gen.Layouts.t2 (2 ^ 39 - 1) [0xFE000001, 7]).2 = [⟨0, 2 ^ 64 + 7⟩] := by decide +kernel
+
+
+/-- a decoder fed batch after batch, in numpy's arithmetic -/
+def processBatchesU64 (p : Params) : Nat → List (List Nat) → Nat × List Event
+  | c, [] => (c, [])
+  | c, b :: bs => ((processBatchesU64 p (processU64 p c b).1 bs).1, (processU64 p c b).2 ++ (processBatchesU64 p (processU64 p c b).1 bs).2)
+
+theorem processU64_append (p : Params) (c : Nat) (a b : List Nat) :
+    processU64 p c (a ++ b) =
+      ((processU64 p (processU64 p c a).1 b).1, (processU64 p c a).2 ++ (processU64 p (processU64 p c a).1 b).2) := by
+  induction a generalizing c with
+  | nil => simp [processU64]
+  | cons r rs ih =>
+    simp only [List.cons_append, processU64_cons]
+    split
+    · exact ih _
+    · simp [ih]
+
+/-- **batch-split invariance holds for the wrapping arithmetic too** — with no bound at all: even beyond 2^64 the
+decoder's output does not depend on how the stream is cut into batches -/
+theorem batch_split_invariance_u64 (p : Params) (c : Nat) (batches : List (List Nat)) :
+    processBatchesU64 p c batches = processU64 p c batches.flatten := by
+  induction batches generalizing c with
+  | nil => rfl
+  | cons b bs ih => simp only [processBatchesU64, List.flatten_cons, processU64_append, ih]
+
+/-! ## T3 mode (same carried counter; outside the statement of C15, modelled for the shared state) -/
+
+theorem t3Scan_cons (p : Params3) (P R c r : Nat) (rs : List Nat) :
+    t3Scan p P R c (r :: rs) =
+      if t3IsOverflow p r then t3Scan p P R ((c + t3N p r) % word) rs
+      else ((t3Scan p P R c rs).1,
+            (⟨t3Type p r, (c * p.wrap + t3N p r) * P + t3D p r * R⟩, (c * p.wrap + t3N p r) * P) :: (t3Scan p P R c rs).2) := by
+  by_cases h : t3IsOverflow p r = true
+  · simp [t3Scan, h]
+  · simp [t3Scan, h]
+
+/-- **T3, the part before `unique`/`lexsort`**: carried counter and the data events (with their sync timestamps) of
+`a ++ b` are those of `a` followed by those of `b` decoded with the carried counter — for every cut, no bound -/
+theorem t3Scan_append (p : Params3) (P R c : Nat) (a b : List Nat) :
+    t3Scan p P R c (a ++ b) =
+      ((t3Scan p P R (t3Scan p P R c a).1 b).1, (t3Scan p P R c a).2 ++ (t3Scan p P R (t3Scan p P R c a).1 b).2) := by
+  induction a generalizing c with
+  | nil => simp [t3Scan]
+  | cons r rs ih =>
+    simp only [List.cons_append, t3Scan_cons]
+    split
+    · exact ih _
+    · simp [ih]
+
+/-- the carried counter of T3 does not depend on the batching either -/
+theorem t3_counter_split (p : Params3) (P R c : Nat) (a b : List Nat) :
+    (processT3 p P R c (a ++ b)).1 = (processT3 p P R (processT3 p P R c a).1 b).1 := by
+  simp [processT3, t3Scan_append]
+
+/-- **T3 is *not* batch-split invariant in its SYNC events** (outside the statement of C15, which names the T2 decoder):
+two photons of the same sync period (n_sync = 5) — in one batch there is one SYNC event, cut between them there are two.
+Replayed on the real `_T3EventDecoder`: same result. -/
+theorem t3_sync_duplicated_by_batch_split :
+    (processT3 Gen.Layouts.t3 200000 1 0 [33656837, 67313669]).2
+      = [⟨64, 1000000⟩, ⟨1, 1000100⟩, ⟨2, 1000200⟩] ∧
+    (processT3 Gen.Layouts.t3 200000 1 0 [33656837]).2 ++ (processT3 Gen.Layouts.t3 200000 1 0 [67313669]).2
+      = [⟨64, 1000000⟩, ⟨1, 1000100⟩, ⟨64, 1000000⟩, ⟨2, 1000200⟩] := by decide +kernel
 
 
 /-! ### non-vacuity: photon, 2 overflows, photon, SYNC; then a second batch continues with the carried counter -/
